@@ -362,9 +362,10 @@ def rule_r6(ck, prog, rule='C15.R6', cls='context::propagation::CompositePropaga
 def run(ck, prog):
     ck.doc('C15.R1', 'no member of Baggage modifies the object it is called on', 6)
     ck.doc('C15.R2', 'copy callbacks of Set/Delete exclude the given key', 2)
-    ck.doc('C15.R3', 'size limits 8192/180/4096 (on the whole member) and the validity conjunction guard the insertion', 8)
+    ck.doc('C15.R3', 'size limits 8192/180/4096 (on the whole member) and the validity conjunction guard the insertion; what is stored is what was validated', 9)
     ck.doc('C15.R4', 'encoder/decoder alphabets agree (byte sets); escape guard; metadata bypass; stored text encoded unaltered', 6)
     ck.doc('C15.R5', 'BaggagePropagator::Extract installs only a non-empty parsed baggage, into the context it was given', 3)
+    ck.doc('C14.R5', '(shared rule, see C14) the tokenizer hands out the member parts untransformed', 1)
     ck.doc('C15.R6', 'CompositePropagator: Inject calls all; Extract threads the context on every feasible path', 3)
     with ck.canary('C15.R6'):
         rule_r6(ck, prog, cls='canary::c15::BadComposite')
@@ -374,4 +375,6 @@ def run(ck, prog):
     rule_r4(ck, prog)
     rule_r5(ck, prog)
     rule_r6(ck, prog)
+    c14.rule_r2_validated_is_stored(ck, prog, cls='baggage::Baggage', rule='C15.R3', names=('FromHeader',))
+    c14.rule_r5_tokenizer(ck, prog, rule='C14.R5')
     return {}
